@@ -44,6 +44,10 @@ TCall == /\ Ev.op \notin {"init", "reset", "observe"}
             THEN /\ N(Ev.r) = Resolve(r).rec /\ Ev.o = Resolve(r).rec
                  /\ last' = Outcome(r, "ok", Ev.r)
                  /\ UNCHANGED <<node, table>>
+            ELSE IF AltOfIn(node, table, r) # 0 /\ Ev.out = "ok" /\ Ev.r = AltOfIn(node, table, r)
+            THEN /\ Ev.o = ConstNodes[Ev.r]                 \* the constant itself instead of a look-alike: also allowed
+                 /\ last' = Outcome(r, "ok", Ev.r)
+                 /\ UNCHANGED <<node, table>>
             ELSE /\ Step(r)
                  /\ last'.out = Ev.out
                  /\ last'.r = Ev.r
